@@ -88,6 +88,8 @@ def make_cases(c, focus, cfgs):
         mode, lines = gen.gen_case(c.rng, q, focus)
         cases.append(("g%d-%s-%s" % (i, q.name, mode), lines))
     if c.tier == "thorough":
+        if focus in ("C01", "C02"):
+            cases += gen.long_corpus(cfgs)
         for q in adm:
             if q.name in ("p4k_s112k_b13_ap", "p4k_s64k_b4_an", "p16k_s64k_b10_up"):
                 cases += gen.exhaustive_small(q, 3)
@@ -115,6 +117,8 @@ def run(c, focus="C01"):
                 c.count("slab_op_" + t[0])
                 if t[-1] == "fail":
                     c.count("slab_env_fail")
+            elif t[0] == "churn":
+                c.count("slab_op_churn"); c.count("slab_churn_pairs", int(t[2]))
             elif t[0] in ("f", "g", "w", "c", "v"):
                 c.count("slab_op_" + t[0])
     long_cases = [x for x in cases if is_long(x[1])]
